@@ -3,6 +3,7 @@ package props
 import (
 	"fmt"
 	"os"
+	"sync"
 
 	lib "github.com/corazawaf/libinjection-go"
 	"verifh/gen"
@@ -17,25 +18,46 @@ var repoDir = func() string {
 	return "/repo"
 }()
 
-// shared tables (copies obtained through the build-tagged accessors)
-var kw = lib.VKeywords()
+// shared tables (copies obtained through the build-tagged accessors). They are built
+// lazily so that a child process of C05 touches nothing of the library before its
+// goroutines do.
 var portD = refsqli.Deltas{VarNulDelim: true}
 
-var lists = func() *refxss.Lists {
-	l := &refxss.Lists{Tags: map[string]bool{}, Attrs: map[string]refxss.AttrType{}, Events: map[string]refxss.AttrType{}}
-	for _, t := range lib.VBlackTags() {
-		l.Tags[t] = true
-	}
-	for _, a := range lib.VBlackAttrs() {
-		l.Attrs[a.Name] = refxss.AttrType(a.Type)
-	}
-	for _, a := range lib.VBlackEvents() {
-		l.Events[a.Name] = refxss.AttrType(a.Type)
-	}
-	return l
-}()
+var (
+	kwOnce    sync.Once
+	kwVal     map[string]byte
+	listsOnce sync.Once
+	listsVal  *refxss.Lists
+	corpOnce  sync.Once
+	corpVal   gen.Corpus
+)
 
-var corpus = gen.LoadCorpus(repoDir)
+func kwTab() map[string]byte {
+	kwOnce.Do(func() { kwVal = lib.VKeywords() })
+	return kwVal
+}
+
+func xlists() *refxss.Lists {
+	listsOnce.Do(func() {
+		l := &refxss.Lists{Tags: map[string]bool{}, Attrs: map[string]refxss.AttrType{}, Events: map[string]refxss.AttrType{}}
+		for _, t := range lib.VBlackTags() {
+			l.Tags[t] = true
+		}
+		for _, a := range lib.VBlackAttrs() {
+			l.Attrs[a.Name] = refxss.AttrType(a.Type)
+		}
+		for _, a := range lib.VBlackEvents() {
+			l.Events[a.Name] = refxss.AttrType(a.Type)
+		}
+		listsVal = l
+	})
+	return listsVal
+}
+
+func corp() *gen.Corpus {
+	corpOnce.Do(func() { corpVal = gen.LoadCorpus(repoDir) })
+	return &corpVal
+}
 
 const (
 	fNone   = 1
